@@ -460,6 +460,31 @@ inline Cand choose()
     return c.back();
 }
 
+// one scheduling decision (+ its bookkeeping line when the exploration needs the enabled sets)
+inline Cand pick_next()
+{
+    RT& R = *g_rt;
+    Cand c = choose();
+    if (R.cfg.logEnabled) {
+        std::vector<Cand> all;
+        collect(all);
+        std::string s;
+        bool other = false;  // a thread that just yielded is not an alternative while somebody else can move (fairness)
+        for (auto& x : all)
+            if (!x.t->yielded && !x.weak) other = true;
+        for (auto& x : all)
+            s += std::to_string(x.t->id) + ":" + std::to_string(x.a) + ((x.weak || (other && x.t->yielded && x.t != c.t)) ? "w " : " ");
+        Ev e;
+        e.t = c.t->id;
+        e.k = "enabled";
+        e.v = c.a;
+        e.w = R.lastT;
+        e.x = intern(s);
+        emit(e);
+    }
+    return c;
+}
+
 inline int on_resume(Thr* me, bool yielding)
 {
     RT& R = *g_rt;
@@ -482,19 +507,7 @@ inline int sched_point(PendOp& op)
     RT& R = *g_rt;
     Thr* me = t_cur;
     me->pend = &op;
-    Cand c = choose();
-    if (R.cfg.logEnabled) {
-        std::vector<Cand> all;
-        collect(all);
-        std::string s;
-        for (auto& x : all) s += std::to_string(x.t->id) + ":" + std::to_string(x.a) + " ";
-        Ev e;
-        e.t = c.t->id;
-        e.k = "enabled";
-        e.v = c.a;
-        e.x = intern(s);
-        emit(e);
-    }
+    Cand c = pick_next();
     c.t->chosenAlt = c.a;
     if (c.t != me) {
         sem_post(&c.t->sem);
@@ -576,6 +589,15 @@ inline int mo_code(std::memory_order mo)
     }
 }
 
+// Code that follows a release-type operation (unlock, release-or-stronger store / RMW) is no longer ordered before what
+// other threads do next: a bookkeeping step `pu` lets them run in between (specifications skip it).
+inline void post_release(const Named& n, int mo)
+{
+    if (!scheduled() || mo < 3) return;
+    simple_point("pu");
+    log_ev("pu", n.name, inst_of(n));
+}
+
 inline void check_uaf(const Named& n, const char* what)
 {
     if (n.reg && n.reg->freed) log_ev("uaf", n.name, inst_of(n), 0, 0, 0, -1, what);
@@ -614,6 +636,7 @@ class vatomic {
         vrt::check_uaf(nm_, "store");
         val_ = v;
         vrt::log_ev("ast", nm_.name, vrt::inst_of(nm_), vrt::toint(v), 0, 0, vrt::mo_code(mo));
+        vrt::post_release(nm_, vrt::mo_code(mo));
     }
     operator T() const noexcept { return load(); }
     T operator=(T v) noexcept
@@ -628,6 +651,7 @@ class vatomic {
         T old = val_;
         val_ = v;
         vrt::log_ev("arm", nm_.name, vrt::inst_of(nm_), vrt::toint(old), vrt::toint(v), 0, vrt::mo_code(mo));
+        vrt::post_release(nm_, vrt::mo_code(mo));
         return old;
     }
     bool compare_exchange_strong(T& expected, T desired, memory_order mo = memory_order_seq_cst) noexcept
@@ -682,6 +706,7 @@ class vatomic {
         T old = val_;
         val_ = f(old);
         vrt::log_ev("arm", nm_.name, vrt::inst_of(nm_), vrt::toint(old), vrt::toint(val_), 0, vrt::mo_code(mo));
+        vrt::post_release(nm_, vrt::mo_code(mo));
         return old;
     }
     bool cas(T& expected, T desired, memory_order mo, bool weak) noexcept
@@ -703,6 +728,7 @@ class vatomic {
         else expected = old;
         vrt::log_ev("cas", nm_.name, vrt::inst_of(nm_), vrt::toint(old), vrt::toint(desired), ok ? 1 : 0,
                     vrt::mo_code(mo));
+        if (ok) vrt::post_release(nm_, vrt::mo_code(mo));
         return ok;
     }
 };
@@ -794,6 +820,15 @@ class vmutex_base {
         owner_ = -1;
         held(false);
         vrt::log_ev(k, nm_.name, vrt::inst_of(nm_), 0, bad);
+        post_unlock();
+    }
+    // The code that follows a release is not protected by the lock any more: give the other threads a chance to run
+    // between the release and that code (a bookkeeping step `pu`; specifications skip it).
+    void post_unlock()
+    {
+        if (!vrt::scheduled()) return;
+        vrt::simple_point("pu");
+        vrt::log_ev("pu", nm_.name, vrt::inst_of(nm_));
     }
     void do_lock_shared(const char* k)
     {
@@ -854,6 +889,7 @@ class vmutex_base {
         if (shared_ > 0) shared_--;
         held(false);
         vrt::log_ev(k, nm_.name, vrt::inst_of(nm_), 0, bad);
+        post_unlock();
     }
 
   public:
@@ -1058,6 +1094,12 @@ namespace this_thread {
         op.yielding = true;
         vrt::sched_point(op);
         vrt::log_ev("yield", "");
+        if (vrt::g_rt->soloT == vrt::cur_id()) {
+            // the thread running alone waits for somebody else: the solo phase ends here (reported, judged by the monitors)
+            vrt::log_ev("soloyield", "");
+            vrt::g_rt->soloT = -1;
+            vrt::g_rt->soloDone = true;
+        }
     }
     template<class R, class P>
     inline void vsleep_for(const chrono::duration<R, P>&)
@@ -1142,7 +1184,7 @@ struct Exec {
                 PendOp dead;
                 dead.kind = "dead";
                 t->pend = nullptr;
-                Cand c = choose();
+                Cand c = pick_next();
                 c.t->chosenAlt = c.a;
                 sem_post(&c.t->sem);
                 for (;;) pause();
@@ -1187,6 +1229,7 @@ inline int main_loop(int argc, char** argv, std::function<void(Exec&)> body)
     std::string out = "/dev/stdout", schedFile;
     long n = 1;
     double wallLimit = 10.0;
+    int pbound = -1;  // >= 0: exhaustive enumeration of all schedules with at most this many preemptions (stateless DFS)
     for (int i = 1; i < argc; ++i) {
         std::string a = argv[i];
         auto eq = a.find('=');
@@ -1206,6 +1249,7 @@ inline int main_loop(int argc, char** argv, std::function<void(Exec&)> body)
         else if (k == "logenabled") base.logEnabled = atoi(v.c_str()) != 0;
         else if (k == "nptail") base.npTail = atoi(v.c_str()) != 0;
         else if (k == "wall") wallLimit = atof(v.c_str());
+        else if (k == "pb") pbound = atoi(v.c_str());
         else if (k == "prog") base.prog = v;
         else base.params[k] = atol(v.c_str());
     }
@@ -1230,9 +1274,30 @@ inline int main_loop(int argc, char** argv, std::function<void(Exec&)> body)
         n = (long)schedLines.size();
     }
     long counts[8] = {0, 0, 0, 0, 0, 0, 0, 0};
-    for (long it = 0; it < n; ++it) {
+    // ---- bounded-preemption DFS state
+    struct Opt {
+        int t, a;
+        bool weak;
+    };
+    struct Frame {
+        std::vector<Opt> opts;
+        int chosen;           // index into opts
+        std::set<int> tried;  // indices already explored
+        int lastT;            // thread that ran the previous step
+        int preBefore;        // preemptions used before this step
+    };
+    std::vector<Frame> stack;
+    std::vector<SchedEntry> dfsPrefix;
+    bool dfsDone = false;
+    if (pbound >= 0) base.logEnabled = true;
+    for (long it = 0; it < n && !dfsDone; ++it) {
         Config cfg = base;
         cfg.seed = base.seed * 1000003ULL + (uint64_t)it;
+        if (pbound >= 0) {
+            cfg.pol = Pol::Replay;
+            cfg.replay = dfsPrefix;
+            cfg.npTail = true;
+        }
         if (!schedLines.empty()) {
             std::string line = schedLines[(size_t)it];
             auto bar = line.find('|');
@@ -1332,7 +1397,91 @@ inline int main_loop(int argc, char** argv, std::function<void(Exec&)> body)
             }
         }
         size_t len = g_sh->len.load(std::memory_order_acquire);
-        fwrite(g_sh->buf, 1, len, fo);
+        if (pbound < 0) fwrite(g_sh->buf, 1, len, fo);
+        else {
+            // write the trace without the bookkeeping lines, and rebuild the DFS stack from them
+            std::vector<Frame> seen;
+            const char* p = g_sh->buf;
+            const char* end = p + len;
+            while (p < end) {
+                const char* nl = (const char*)memchr(p, '\n', (size_t)(end - p));
+                if (!nl) nl = end;
+                std::string line(p, nl);
+                p = nl + 1;
+                if (line.find("\"k\":\"enabled\"") == std::string::npos) {
+                    fwrite(line.data(), 1, line.size(), fo);
+                    fputc('\n', fo);
+                    continue;
+                }
+                Frame f;
+                auto num = [&](const char* key) {
+                    auto q = line.find(key);
+                    return q == std::string::npos ? 0 : atoi(line.c_str() + q + strlen(key));
+                };
+                int ct = num("\"t\":"), ca = num("\"v\":");
+                f.lastT = num("\"w\":");
+                auto xs = line.find("\"x\":\"");
+                std::string xsv = line.substr(xs + 5, line.find('"', xs + 5) - xs - 5);
+                std::istringstream is(xsv);
+                std::string tok;
+                f.chosen = -1;
+                while (is >> tok) {
+                    Opt o;
+                    o.weak = tok.back() == 'w';
+                    if (o.weak) tok.pop_back();
+                    auto c = tok.find(':');
+                    o.t = atoi(tok.substr(0, c).c_str());
+                    o.a = atoi(tok.substr(c + 1).c_str());
+                    if (o.t == ct && o.a == ca) f.chosen = (int)f.opts.size();
+                    f.opts.push_back(o);
+                }
+                seen.push_back(f);
+            }
+            // frames of the replayed prefix keep their `tried` sets; deeper ones are new
+            for (size_t d = 0; d < seen.size(); ++d) {
+                if (d < stack.size()) continue;
+                Frame f = seen[d];
+                if (f.chosen >= 0) f.tried.insert(f.chosen);
+                stack.push_back(f);
+            }
+            // preemption counts along the current path
+            int pre = 0;
+            for (auto& f : stack) {
+                f.preBefore = pre;
+                if (f.chosen >= 0) {
+                    bool lastEnabled = false;
+                    for (auto& o : f.opts)
+                        if (o.t == f.lastT && !o.weak) lastEnabled = true;
+                    if (lastEnabled && f.opts[(size_t)f.chosen].t != f.lastT && f.lastT != 0) pre++;
+                }
+            }
+            // backtrack: deepest frame with an unexplored option within the bound
+            dfsDone = true;
+            while (!stack.empty()) {
+                Frame& f = stack.back();
+                bool lastEnabled = false;
+                for (auto& o : f.opts)
+                    if (o.t == f.lastT && !o.weak) lastEnabled = true;
+                int pick = -1;
+                for (size_t k = 0; k < f.opts.size(); ++k) {
+                    if (f.tried.count((int)k) || f.opts[k].weak) continue;
+                    int cost = (lastEnabled && f.opts[k].t != f.lastT && f.lastT != 0) ? 1 : 0;
+                    if (f.preBefore + cost <= pbound) {
+                        pick = (int)k;
+                        break;
+                    }
+                }
+                if (pick >= 0) {
+                    f.tried.insert(pick);
+                    f.chosen = pick;
+                    dfsPrefix.clear();
+                    for (auto& g : stack) dfsPrefix.push_back(SchedEntry{g.opts[(size_t)g.chosen].t, g.opts[(size_t)g.chosen].a});
+                    dfsDone = false;
+                    break;
+                }
+                stack.pop_back();
+            }
+        }
         int status = g_sh->status.load();
         if (hung) {
             fprintf(fo, "{\"t\":0,\"k\":\"hang\",\"o\":\"\",\"i\":0,\"v\":0,\"w\":0,\"u\":0,\"m\":-1,\"x\":\"\",\"s\":0,\"a\":0}\n");
